@@ -44,7 +44,15 @@ func (c *deferInfoCollector) EnterSelectionSet(ref int) {
 		if !ok {
 			continue
 		}
-		if _, seen := c.descriptors[id]; seen {
+		if descriptor, seen := c.descriptors[id]; seen {
+			// The fields of one fragment can end up in several selection sets: when the fragment
+			// selects object fields that are also selected next to it, its fields are merged into
+			// them and the fragment's own selection set is gone. It is mounted where the paths of
+			// all of them meet.
+			if common := commonPathPrefix(descriptor.Path, c.deferPath()); len(common) != len(descriptor.Path) {
+				descriptor.Path = common
+				c.descriptors[id] = descriptor
+			}
 			continue
 		}
 		c.descriptors[id] = resolve.DeferDescriptor{
@@ -54,6 +62,15 @@ func (c *deferInfoCollector) EnterSelectionSet(ref int) {
 			Path:     c.deferPath(),
 		}
 	}
+}
+
+// commonPathPrefix returns the longest common prefix of two paths.
+func commonPathPrefix(a, b []string) []string {
+	n := 0
+	for n < len(a) && n < len(b) && a[n] == b[n] {
+		n++
+	}
+	return a[:n]
 }
 
 // deferPath returns the response path of the inline fragment for the defer
